@@ -435,8 +435,11 @@ class Result:
               'wall_s': round(time.time() - self.t0, 2), 'violations': len(self.violations)}
         if self.known_hits:
             ev['coverage']['known_findings_hit'] = [h[0] for h in self.known_hits]
-        os.makedirs(os.path.join(VERIF, 'evidence'), exist_ok=True)
-        json.dump(ev, open(os.path.join(VERIF, 'evidence', self.pid + '.json'), 'w'), indent=1, default=str)
+        # runs against a scratch tree (VERIF_REPO) keep their evidence with their private build, so that the committed
+        # evidence always describes /repo itself
+        evdir = os.path.join(BUILD, 'evidence') if SCRATCH else os.path.join(VERIF, 'evidence')
+        os.makedirs(evdir, exist_ok=True)
+        json.dump(ev, open(os.path.join(evdir, self.pid + '.json'), 'w'), indent=1, default=str)
         return 1 if self.violations else 0
 
 
